@@ -507,6 +507,13 @@ def run(ctx):
             hbfs._guard(repeat_case, case)
         except Violation as v:
             ctx.report(case, v)
+    for kind in ('plain', 'grid', 'late_seed', 'self_seeded'):
+        case = {'leg': 'fork', 'kind': kind, 'seed': ctx.seed * 1000 + 1, 'steps': 3}
+        ctx.traces += 2
+        try:
+            hbfs._guard(fork_case, case)
+        except Violation as v:
+            ctx.report(case, v)
     for n in (10, 70, 300):
         case = {'leg': 'import_state', 'n': n, 'seed': ctx.seed * 1000 + 1}
         ctx.traces += 3
@@ -567,6 +574,37 @@ for _ in range(3):
     out.append(m.environment.get_random_agent().id)
 print('TRAJ ' + repr(out))
 '''
+
+
+_FORK_HOLD = {}
+
+
+def _fork_child(conn, steps):
+    m = _FORK_HOLD['m']
+    for _ in range(steps):
+        m.execute()
+    finish(m)
+    conn.send(digest_of(m))
+    conn.close()
+
+
+def fork_case(case):
+    """A model is built in this process and stepped in a forked child (a worker that inherits a prepared model): its
+    trajectory is the one the same seed gives here."""
+    want = solo(case['kind'], case['seed'], case['steps'])
+    reset_library()
+    _FORK_HOLD['m'] = SModel(case['kind'], case['seed'])
+    mp = multiprocessing.get_context('fork')
+    recv, send = mp.Pipe(False)
+    p = mp.Process(target=_fork_child, args=(send, case['steps']))
+    p.start()
+    got = recv.recv() if recv.poll(120) else None
+    p.join(10)
+    _FORK_HOLD.clear()
+    if got != want:
+        raise Violation(f'a {case["kind"]} model with seed {case["seed"]} built here and stepped in a forked child took another '
+                        f'trajectory than the same model stepped here', expected=want, observed=got)
+    return 1
 
 
 def import_state_case(case):
@@ -700,6 +738,9 @@ def repeat_case(case):
 def replay(case):
     if case['leg'] == 'import_state':
         hbfs._guard(import_state_case, case)
+        return
+    if case['leg'] == 'fork':
+        hbfs._guard(fork_case, case)
         return
     if case['leg'] == 'huge_population':
         hbfs._guard(huge_population_case, case)
